@@ -569,29 +569,40 @@ class Body:
 
     # .await: X(args) -> into_future -> loop { poll -> switch Ready/Pending -> yield }
     def await_of(self, call):
-        """For a call creating a future, return (poll_call, ready_edge) of the `.await` consuming it, or None."""
+        """For a call creating a future, return (poll_call, ready_edge) of the `.await` consuming it, or None.
+        Only the *whole* returned value counts (a future stored in a field of the result is a different await)."""
         if call.dest is None:
             return None
+        c = getattr(self, "_await_cache", None)
+        if c is None:
+            c = self._await_cache = {}
+        if call.bb in c:
+            return c[call.bb]
+        res = None
         flow = self.flow_forward(call.dest)
-        locs = {l for l, _ in flow}
-        for c in self.calls:
-            if c.cleanup or not c.is_await_part():
+        exact = {l for l, p in flow if p == ()}
+        for f in self.calls:
+            if f.cleanup or not f.is_await_part() or not f.nname.endswith("into_future") or not f.args:
                 continue
-            n = c.nname
-            if not (n.endswith("::poll") or "Future>::poll" in n or (c.ucallee or "").endswith("Future::poll")):
+            pl = f.args[0].get("m") or f.args[0].get("c")
+            if pl is None or len(pl) != 1 or pl[0] not in exact:
                 continue
-            if not c.args:
-                continue
-            a0 = c.args[0]
-            pl = a0.get("m") or a0.get("c")
-            if pl is None:
-                continue
-            # poll(Pin::new_unchecked(&mut awaitee), cx): trace arg0 back to the awaitee local
-            o = self.origins(a0)
-            src_locals = self._origin_locals(a0)
-            if src_locals & locs:
-                return c, self.ready_edge(c)
-        return None
+            aw = {l for l, p in self.flow_forward(f.dest) if p == ()}
+            for p_ in self.calls:
+                if p_.cleanup or not p_.is_await_part() or not p_.args:
+                    continue
+                n = p_.nname
+                if not (n.endswith("::poll") or "Future>::poll" in n or n.endswith("{closure#0}") or (p_.ucallee or "").endswith("Future::poll")):
+                    continue
+                if p_.nname.endswith("into_future") or p_.nname.endswith("get_context") or p_.nname.endswith("new_unchecked"):
+                    continue
+                if self._origin_locals(p_.args[0]) & aw:
+                    res = (p_, self.ready_edge(p_))
+                    break
+            if res:
+                break
+        c[call.bb] = res
+        return res
 
     def _origin_locals(self, op, depth=8):
         """locals reachable backwards from operand through moves/refs/transparent calls"""
